@@ -285,7 +285,11 @@ func verifyFunc(L *Loaded, fn *ssa.Function, fc *FuncContract) (res *FuncResult)
 	outs = append(outs, ex.panicOuts...)
 	res.Returns = len(outs)
 	for _, o := range outs {
-		ex.atReturn(o.st, fr, fc, o.rets)
+		f := fr
+		if pf := ex.retFrames[o.st]; pf != nil {
+			f = pf
+		}
+		ex.atReturn(o.st, f, fc, o.rets)
 	}
 	if len(outs) == 0 && len(ex.obligs) <= 1 {
 		res.Errs = append(res.Errs, "no path reaches a return")
@@ -386,6 +390,10 @@ func (ex *Exec) frameCheck(st *State, fr *Frame, fc *FuncContract, env *Env) {
 	reach := map[int]bool{}
 	if fc != nil && fc.ModReach && len(ex.entry.Params) > 0 {
 		collectObjs(&State{heap: entry, globals: ex.entry.Globals}, ex.entry.Params[0], reach, 8)
+		// a pointer parameter designates its own cell too
+		if p, ok := ex.entry.Params[0].(VPtr); ok && p.Obj > 0 {
+			reach[p.Obj] = true
+		}
 	}
 	ids := make([]int, 0, len(entry))
 	for id := range entry {
